@@ -39,8 +39,10 @@
    are the inputs of the former known findings C06-udp-zero-checksum, C06-ping6-no-pseudo-header,
    C06-ndp-solicit-zero-src-mac, which the correspondence check keeps generating.
    All frame theorems assume what the callers establish: a unicast source address, a flag byte the
-   TCP state machine can produce (flag_sane), payload views whose non-final members have even length
-   (a single view in every code path of the stack itself; F7 otherwise), no checksum offload. *)
+   TCP state machine can produce (flag_sane), for TCP and UDP payload views whose non-final members
+   have even length (a single view in every code path of the stack itself; the view-by-view sum of
+   sendTCP/sendUDP is wrong otherwise - the ICMPv6 echo reply no longer needs this since /repo 1404d7f
+   sums the concatenation), no checksum offload. *)
 From Coq Require Import ZArith List Bool.
 From NP Require Import Model.Bytes Model.Checksum Model.TcpOptions Proofs.ChecksumP Proofs.TcpOptionsP.
 From NP Require Import Model.Emit Proofs.EmitP.
@@ -236,7 +238,7 @@ Theorem C06_icmp6_echo_reply_wf : forall r x2 x3 i0 i1 q0 q1 more vv ttl,
   length (rLocal r) = 16%nat -> length (rRemote r) = 16%nat -> bytes_ok (rLocal r) -> bytes_ok (rRemote r) ->
   nth 0 (rLocal r) 0 <> 255 ->
   is_byte i0 -> is_byte i1 -> is_byte q0 -> is_byte q1 ->
-  Forall bytes_ok vv -> nonfinal_even vv -> 8 + vsize vv <= 65535 -> 1 <= ttl < 256 ->
+  Forall bytes_ok vv -> 8 + vsize vv <= 65535 -> 1 <= ttl < 256 ->
   let h := 128 :: 0 :: x2 :: x3 :: i0 :: i1 :: q0 :: q1 :: more in
   exists pkt frame,
     icmp6_echo_reply r h vv = Some pkt /\
